@@ -273,6 +273,62 @@ class Session:
                                  % (r[3], gen.expected_args(data)))
         ctx.case((self.cfg, 'burst', direction, n), None)
 
+    def callback_burst(self):
+        """A few hundred emits with callbacks issued in one go by one side,
+        nothing else happening in between (the acknowledgements are all
+        outstanding at the same time): every callback gets the value its own
+        handler returned, once."""
+        rng, b, ctx = self.rng, self.b, self.ctx
+        direction = rng.choice(['c2s', 'c2s', 's2c'])
+        n = rng.choice([140, 200, 300])
+        ns = rng.choice(NSS)
+        sender = b.h.c if direction == 'c2s' else b.d.sio
+        kw = {'namespace': ns}
+        if direction == 's2c':
+            kw['to'] = self.sids[ns]
+        got = {}
+        names = []
+        for i in range(n):
+            name = self.new_name()
+            names.append(name)
+            self.rets[name] = i
+
+        def cb_for(name):
+            def cb(*a):
+                got.setdefault(name, []).append(a)
+            return cb
+        self.history.append({'callback_burst': n, 'dir': direction,
+                             'ns': ns})
+        try:
+            if b.is_async:
+                async def go():
+                    for name in names:
+                        await sender.emit(name, {'n': name},
+                                          callback=cb_for(name), **kw)
+                b.run(go())
+            else:
+                for name in names:
+                    sender.emit(name, {'n': name}, callback=cb_for(name),
+                                **kw)
+                b.pump()
+        except Exception as e:
+            return self.fail('a burst of emits with callbacks raised %r' % e)
+        if b.errors():
+            return self.fail('errors during a burst of emits with '
+                             'callbacks: %r' % [
+                                 e.get('exc') for e in b.errors()[:2]])
+        for name in names:
+            self.rets[name] = None
+        ctx.count('callback_bursts')
+        bad = [(name, got.get(name)) for i, name in enumerate(names)
+               if got.get(name) != [(i,)]]
+        if bad:
+            return self.fail('%d emits with callbacks issued in one go (%s): '
+                             '%d callbacks did not get their own handler\'s '
+                             'value exactly once, e.g. %r' % (
+                                 n, direction, len(bad), bad[:2]))
+        ctx.case((self.cfg, 'callback_burst', direction, n), None)
+
     def overlap(self):
         """Several emits with callbacks outstanding at once (asyncio pairing,
         coroutine handlers that take different virtual times): the answers
@@ -604,6 +660,8 @@ class Session:
                 self.reconnect_after_partial()
             elif self.b.is_async and self.co and rng.random() < 0.06:
                 self.overlap()
+            elif rng.random() < 0.02:
+                self.callback_burst()
             elif rng.random() < 0.12:
                 self.burst()
             else:
@@ -705,6 +763,7 @@ def run(ctx):
     ctx.require('calls_judged', 50)
     ctx.require('bursts_judged', 10)
     ctx.require('last_words_judged', 10)
+    ctx.require('callback_bursts', 5)
     ctx.require('bursts_with_handlers_of_both_kinds', 5)
     ctx.require('overlapping_callback_groups', 5)
     ctx.require('binary_frames_through_bridge', 50)
